@@ -18,7 +18,8 @@ func init() {
 }
 
 var lineReads = []string{lReadLine, "call:(*textproto.Reader).ReadLine", "call:(*textproto.Reader).ReadLineBytes", "call:(*textproto.Reader).ReadDotBytes",
-	"call:(*textproto.Reader).ReadDotLines", "call:(*textproto.Reader).ReadContinuedLine", "call:(*textproto.Reader).DotReader", "call:(*textproto.Reader).ReadResponse"}
+	"call:(*textproto.Reader).ReadDotLines", "call:(*textproto.Reader).ReadContinuedLine", "call:(*textproto.Reader).DotReader", "call:(*textproto.Reader).ReadResponse",
+	"call:(*bufio.Reader).ReadString", "call:(*bufio.Reader).ReadBytes", "call:(*bufio.Reader).ReadSlice", "call:(*bufio.Reader).ReadLine"}
 
 // dataReaderCallbacks: Data/LMTPData call sites whose reader is the DATA reader.
 func dataReaderCallbacks(c *Ctx) []ssa.Instruction {
